@@ -73,7 +73,17 @@ func ruleC20Key(c *ctx.Ctx, r *core.Reporter) {
 		r.Check(read[f] && retUsesLit, "key:field:"+f, c.Pos(ck.Pos()), fmt.Sprintf("BuildCache.%s is part of the key material (a cache written under a different %s must not be read)", f, f))
 	}
 	// commonKey renders with %#v (field names and values, no ambiguity between adjacent strings)
-	r.Check(strings.Contains(nodeString(c, ck.Body), `fmt.Sprintf("%#v", ck)`), "key:rendering", c.Pos(ck.Pos()), "the key material is rendered with %#v (quoted values: adjacent fields cannot run into each other)")
+	r.Check(func() bool {
+		// return fmt.Sprintf("%#v", <the key struct value>) where the value is a local initialised by a composite literal
+		for _, m := range findGoPattern(ck.Body, `return fmt.Sprintf("%#v", µk)`) {
+			for _, m2 := range findGoPattern(ck.Body, `µk := µT{µµfields}`) {
+				if m2.Env["µk"] == m.Env["µk"] {
+					return true
+				}
+			}
+		}
+		return false
+	}(), "key:rendering", c.Pos(ck.Pos()), "the key material is rendered with %#v (quoted values: adjacent fields cannot run into each other)")
 	// packageKey joins commonKey and the import path
 	s := nodeString(c, pk.Body)
 	param := pk.Type.Params.List[0].Names[0].Name
@@ -81,7 +91,23 @@ func ruleC20Key(c *ctx.Ctx, r *core.Reporter) {
 	// Store and Load derive the path identically
 	for _, fn := range []string{"BuildCache.Store", "BuildCache.Load"} {
 		fd := c.FuncDecl(cachePkg, fn)
-		ok := fd != nil && strings.Contains(nodeString(c, fd.Body), "path := cachedPath(bc.packageKey(importPath))")
+		ok := false
+		if fd != nil {
+			recvName, ipath := "", ""
+			if fd.Recv != nil && len(fd.Recv.List[0].Names) == 1 {
+				recvName = fd.Recv.List[0].Names[0].Name
+			}
+			for _, f := range fd.Type.Params.List {
+				if exprStr(f.Type) == "string" && len(f.Names) == 1 {
+					ipath = f.Names[0].Name
+				}
+			}
+			for _, m := range findGoPattern(fd.Body, `µp := cachedPath(µbc.packageKey(µi))`) {
+				if m.Env["µbc"] == recvName && m.Env["µi"] == ipath && ipath != "" {
+					ok = true
+				}
+			}
+		}
 		r.Check(ok, "key:same-path:"+fn, cachePkg+"/cache.go", fn+" computes the file name as cachedPath(bc.packageKey(importPath))")
 	}
 	// cachedPath hashes the whole key
@@ -273,7 +299,7 @@ func ruleC20Stale(c *ctx.Ctx, r *core.Reporter) {
 	})
 	r.Check(iDes >= 0 && iErr > iDes && iOld > iDes && trues == 1 && lastTrue, "load:hit-only-if-ok-and-fresh", c.Pos(ld.Pos()), "Load returns true exactly once, as its last statement, after the error check and the staleness check have returned false")
 	// open failure is a miss
-	iOpen := stmtIndex(c, ld.Body, func(s string, _ ast.Stmt) bool { return strings.Contains(s, "os.Open(path)") })
+	iOpen := stmtIndex(c, ld.Body, func(s string, _ ast.Stmt) bool { return strings.Contains(s, "os.Open(") })
 	if iOpen >= 0 && iOpen+1 < len(ld.Body.List) {
 		s := nodeString(c, ld.Body.List[iOpen+1])
 		r.Check(strings.HasPrefix(s, "if err != nil") && strings.Contains(s, "return false"), "load:open-error-is-miss", c.Pos(ld.Body.List[iOpen+1].Pos()), "a missing or unreadable cache file is a cache miss, not an error")
